@@ -6,8 +6,8 @@ ROOT = os.path.dirname(os.path.dirname(os.path.abspath(__file__)))
 ALL = ["C%02d" % i for i in range(1, 21)]
 CHECKS = {
   "C08": dict(
-    technique="property-based testing with a recording generator (proptest): the source generator records every dependency it writes with its byte range; the analyser's report must equal the record; position lookup through a one-module graph; round trip of every reported range over the repository's spec corpus",
-    text="Generated programs over every dependency-bearing form for 7 media types with non-ASCII / astral trivia, CRLF, shebang, escapes, templates, nesting in functions / classes / namespaces / declare-module blocks, pragma styles and JSDoc forms. Oracles: the multiset of reported dependencies (kind, cooked text, attributes, dynamic argument shape, types pragma) equals the record - every one once, nothing else; each reported range converted with an independent line/character counter equals the recorded byte range; Dependency::includes finds exactly the owning dependency and its range for positions inside a site; corpus layer: the source slice at every reported range is the specifier. Exploration only.",
+    technique="property-based testing with a recording generator (proptest): the source generator records every dependency it writes with its byte range; the analyser's report must equal the record; position lookup through a one-module graph; round trip of every reported range over the repository's spec corpus and a metamorphic trivia-insertion layer over mutated corpus sources",
+    text="Generated programs over every dependency-bearing form for 7 media types with non-ASCII / astral trivia, CRLF, shebang, escapes, templates, nesting in functions / classes / namespaces / declare-module blocks, pragma styles and JSDoc forms. Oracles: the multiset of reported dependencies (kind, cooked text, attributes, dynamic argument shape, types pragma) equals the record - every one once, nothing else; each reported range converted with an independent line/character counter equals the recorded byte range; Dependency::includes finds exactly the owning dependency and its range for positions inside a site; corpus layer: the source slice at every reported range is the specifier; mutated-corpus layer (metamorphic): inserting trivia (a comment line with non-ASCII / astral / U+2028 text, a comment before an import or export statement, a shebang, CR before every LF) into a corpus source leaves the reported dependencies unchanged and moves every reported range by exactly the bytes inserted before it. Exploration only.",
     design_ref="DESIGN.md §4 C08",
     note="Trusted: the generator's own bookkeeping of byte offsets; swc as the parser on the implementation side only.",
   ),
